@@ -84,7 +84,11 @@ class PartHandler(PartFlowController):
         self._next_cycle_time_offset += offset
 
     def notify_upstream_of_available_space(self):
-        self._set_waiting_for_part(True)
+        # Only an idle device starts waiting for a Part; a notification
+        # sent while it is busy or not operational (e.g. its input was
+        # unblocked) must not make it look idle since that moment.
+        if self._part == None and self._output == None and self.is_operational():
+            self._set_waiting_for_part(True)
         super().notify_upstream_of_available_space()
 
     def space_available_downstream(self):
